@@ -26,6 +26,7 @@ func GetOnosConfigID() topoapi.ID {
 func AddDeleteChildren(index configapi.Index, changeValues map[string]*configapi.PathValue, configStore map[string]*configapi.PathValue) map[string]*configapi.PathValue {
 	// defining new changeValues map, where we will include old changeValues map and new pathValues to be cascading deleted
 	var updChangeValues = make(map[string]*configapi.PathValue)
+	// deletes are processed before updates (as gNMI prescribes), so that an update beneath a deleted node survives
 	for _, changeValue := range changeValues {
 		// if this pathValue has to be deleted, then we need to search for all children of this pathValue
 		if changeValue.Deleted {
@@ -38,7 +39,10 @@ func AddDeleteChildren(index configapi.Index, changeValues map[string]*configapi
 			}
 			// overwriting itself in the store, we want the latest value (changeValue variable)
 			updChangeValues[changeValue.Path] = changeValue
-		} else {
+		}
+	}
+	for _, changeValue := range changeValues {
+		if !changeValue.Deleted {
 			updChangeValues[changeValue.Path] = changeValue
 		}
 	}
